@@ -25,7 +25,8 @@ for Q in $P "$@"; do
   R=""; if [ $RC -eq 1 ]; then R=$(echo "$KEYS" | awk '{print $1}' | cut -d/ -f1); fi
   if [ "$Q" = "$P" ] && [ -z "$EXPECT" ]; then EXPECT=$R; fi
   EXPMAP="$EXPMAP\"$Q\":\"$R\","
-  DETECT="$DETECT{\"check\":\"$Q\",\"exit\":$RC,\"violated_keys\":\"$KEYS\"},"
+  JKEYS=$(echo "$KEYS" | tr -d '"\\')
+  DETECT="$DETECT{\"check\":\"$Q\",\"exit\":$RC,\"violated_keys\":\"$JKEYS\"},"
 done
 git -C /repo checkout -- .
 python3 - "$P" "$K" "$TARGET" "$DST" "[${DETECT%,}]" "$VER" "$EXPECT" "{${EXPMAP%,}}" <<'PY'
